@@ -407,7 +407,7 @@ Proof.
       intros h [E|E]; inversion E; subst. destruct Oq as (E1 & E2 & E3). subst id.
       eapply out_task_fail; eauto.
       * symmetry. eapply Od; eauto.
-      * intros _. rewrite app_length. simpl. lia.
+      * intros _. simpl. lia.
     + (* P5 -> PExit Normal *)
       intros h [E|E]; inversion E; subst. destruct Xf as [-> FF]. simpl in Oa. rewrite app_nil_r in Oa.
       eapply out_normal; eauto; lia.
